@@ -791,6 +791,21 @@ dataframe::iterator dataframe::erase(iterator first, iterator last)
 }
 
 ///
+/// Gives the dataframe the schema (columns and class labels) of another one.
+///
+/// \param[in] other the dataframe whose schema is copied
+///
+/// `push_back` only appends an example: a dataframe filled with examples taken
+/// from another one (e.g. the validation set) must also know their schema,
+/// otherwise `classes()`, `class_name()` and `columns` don't describe them.
+///
+void dataframe::clone_schema(const dataframe &other)
+{
+  columns = other.columns;
+  classes_map_ = other.classes_map_;
+}
+
+///
 /// \return `true` if the object passes the internal consistency check
 ///
 bool dataframe::is_valid() const
